@@ -27,6 +27,9 @@ type C17Case struct {
 	DQ      bool           `json:"dq,omitempty"`      // identifiers spelled with double quotes (needs PG)
 	BR      bool           `json:"br,omitempty"`      // arrays spelled [..] (needs Arrays)
 	Pad     bool           `json:"pad,omitempty"`     // extra white space inside brackets
+	// Poison, when set, is a query the rewriters reject; it is executed (and its outcome ignored) under
+	// all three options right before the variant: a rejected query must leave nothing behind
+	Poison  string         `json:"poison,omitempty"`
 	BSQuote bool           `json:"bsquote,omitempty"` // variant spells a quote inside a literal as \' (canonical: '')
 }
 
@@ -113,6 +116,10 @@ func genC17(t *rapid.T) any {
 		c.Pad = rapid.IntRange(0, 3).Draw(t, "pad") == 0
 	}
 	c.BSQuote = rapid.IntRange(0, 2).Draw(t, "bsquote") == 0
+	if rapid.IntRange(0, 3).Draw(t, "poison") == 0 {
+		c.Poison = rapid.SampledFrom([]string{"SELECT \"k\" FROM \"t\" WHERE \"s\" = 'bob\\", "SELECT \"k\\", "SELECT [1, [2 FROM \"t\"", "SELECT 1] FROM t", "SELECT 'abc\\", "SELECT \"a FROM t",
+			"SELECT ']' , [ FROM \"t\"", "SELECT \"x\" FROM \"nosuch\" WHERE", "SELECT `k` FROM `t` WHERE s = 'it''s \\"}).Draw(t, "poisontext")
+	}
 	identPool := append([]string{}, c17Idents...)
 	aliasPool := append([]string{}, c17Aliases...)
 	if !c.DQ {
@@ -238,6 +245,11 @@ func checkC17(c *C17Case) Result {
 	if c.Wrapped {
 		canonDoc = map[string]any{"root": canonDoc}
 	}
+	if c.Poison != "" {
+		Run(val.CopyMap(c.Doc), c.Poison, Opts{Wrapped: true, PG: true, Arrays: true})
+		res.Execs++
+		res.Labels = append(res.Labels, "after-a-rejected-query")
+	}
 	canon := Run(canonDoc, canonSQL, Opts{})
 	variant := Run(val.CopyMap(c.Doc), varSQL, Opts{Wrapped: c.Wrapped, PG: c.PG, Arrays: c.Arrays})
 	res.Execs += 2
@@ -338,7 +350,7 @@ func init() {
 			"in selector syntax, aliases with the same hostile characters, ARRAY expressions nested to depth 4 (with literals containing brackets, " +
 			"identifiers containing brackets, FIRST/LAST over arrays), an optional WHERE, and a non-empty option set out of the 2^3-1 combinations; " +
 			"the variant (options on; double-quoted identifiers when PostgresEscapingDialect is on, [..] arrays when IdiomaticArrays is on, each " +
-			"also left in canonical spelling sometimes; quotes inside literals spelled \\' instead of '' in a third of the cases; optional white space inside brackets) must behave exactly like the canonical query (no " +
+			"also left in canonical spelling sometimes; quotes inside literals spelled \\' instead of '' in a third of the cases; a quarter of the cases first execute a query that the rewriters reject (dangling backslash, unbalanced bracket or quote) under all options; optional white space inside brackets) must behave exactly like the canonical query (no " +
 			"options, backticks, ARRAY(..), input {\"root\": input} for Wrapped): same rows in the same order or both fail; pure string-literal " +
 			"items must echo exactly. Non-trivial: canonical query returns >=1 row and a literal/identifier/alias contains one of the hostile " +
 			"characters or an array nests >=2 deep.",
